@@ -72,3 +72,16 @@ Theorem c17_partition :
 Proof. exact ApiMore.c17_partition. Qed.
 Print Assumptions c17_partition.
 
+
+(* ---- static tie for "the input is not modified": Execute and the evaluation path write only to containers they made (TieWrites.v) ---- *)
+From Bexpr Require Import GoTables TieWrites. Open Scope string_scope.
+
+Theorem evaluation_path_mutates_only_its_own_containers :
+  evaluation_path_shared_calls = [].
+Proof. exact TieWrites.evaluation_path_mutates_only_its_own_containers. Qed.
+Print Assumptions evaluation_path_mutates_only_its_own_containers.
+
+Theorem evaluation_path_builds_fresh_containers :
+  existsb (fun c => existsb (String.eqb (c_fn c)) go_eval_reachable && String.eqb (c_class c) "fresh") go_mutating_calls = true.
+Proof. exact TieWrites.evaluation_path_builds_fresh_containers. Qed.
+Print Assumptions evaluation_path_builds_fresh_containers.
